@@ -17,20 +17,13 @@ Record case := Case {
   go_class : Z        (* harness' own classification: 0 compared, 1 clock boundary, 2 rnd-dependent *)
 }.
 
-Definition ratio_eqb (a b : ratio) : bool := (fst a =? fst b) && (snd a =? snd b).
-
-(** the float64 product as observed: a table for the three ratios the code uses *)
-Definition scale_tbl (c : case) (L : Z) (r : ratio) : Z :=
-  if ratio_eqb r (eff_ratio (cfg_ratio (inp c))) then w_cfg c
-  else if ratio_eqb r (eff_ratio ari_emergency_ratio) then w_ari c
-  else if ratio_eqb r (eff_ratio imminent_ratio) then w_imm c
-  else 0.
-
 Definition verdict_of (z : Z) : verdict := if z =? 1 then Renew else if z =? 0 then Wait else Panic.
 Definition verdict_code (v : verdict) : Z := match v with Wait => 0 | Renew => 1 | Panic => 2 end.
 
+(** the model proper runs on the exact float64 model [scale_f64] (for which [scale_spec] is
+    proved, F64Proofs.v); [oracle_ok] checks that Go computed the same three windows *)
 Definition model_at (c : case) (now : Z) : option verdict :=
-  let sc := scale_tbl c in
+  let sc := scale_f64 in
   if kind c =? 2 then
     (if present c then decide_all_rnd sc (managed_inputs (inp c)) now else Some Renew)
   else if present c then decide_all_rnd sc (inp c) now else Some Wait.
